@@ -218,14 +218,23 @@ def _taint(ctx, extra=None):
     return ctx._roles[key]
 
 
-def guard_ge(p, upto, l, r):
-    """a decision before `upto` on this path implies l ≥ r (so `l − r` cannot underflow)"""
-    la = affine(l)
-    ra = affine(r)
+def _guard_atoms(p, upto, ev=None):
+    """atomic boolean facts that hold when event `ev` executes: decisions taken earlier on the path plus the short-circuit conditions enclosing it"""
     for d in p.decisions(upto):
         if d.d["how"] not in ("if",):
             continue
-        for c, pol in _atoms_with_polarity(unmut(d.d["cond"]), d.d["outcome"] is True):
+        yield from _atoms_with_polarity(unmut(d.d["cond"]), d.d["outcome"] is True)
+    if ev is not None:
+        for (c, truth) in ev.d.get("sc", ()):
+            yield from _atoms_with_polarity(unmut(c), truth)
+
+
+def guard_ge(p, upto, l, r, ev=None):
+    """a decision before `upto` on this path implies l ≥ r (so `l − r` cannot underflow)"""
+    la = affine(l)
+    ra = affine(r)
+    if True:
+        for c, pol in _guard_atoms(p, upto, ev):
             if c[0] != "bin":
                 continue
             op, a, b = c[1], affine(c[2]), affine(c[3])
@@ -261,14 +270,12 @@ def _atoms_with_polarity(c, truth):
         yield c, truth
 
 
-def guard_le_const(p, upto, l):
+def guard_le_const(p, upto, l, ev=None):
     """largest K such that a decision before `upto` implies l ≤ K (else None)"""
     la = affine(l)
     best = None
-    for d in p.decisions(upto):
-        if d.d["how"] != "if":
-            continue
-        for c, pol in _atoms_with_polarity(unmut(d.d["cond"]), d.d["outcome"] is True):
+    if True:
+        for c, pol in _guard_atoms(p, upto, ev):
             if c[0] != "bin":
                 continue
             op, a, b = c[1], affine(c[2]), affine(c[3])
@@ -286,7 +293,27 @@ def guard_le_const(p, upto, l):
     return best
 
 
+SHAPE_ALLOW = [
+    # (operator, predicate on (left, right) terms, reason)
+    ("+", lambda l, r: _is_field(l, "tile_id") and _is_field(_strip_cast(r), "run_length") and l[1] == _strip_cast(r)[1],
+     "entry.tile_id + entry.run_length of one layout entry: ids are distinct and ascending after the sort, so the sum is at most the next id"),
+    ("+=", lambda l, r: _is_field(l, "run_length") and r == C(1), "run_length += 1: needs more than 2^32 resident tiles with one content"),
+    ("+", lambda l, r: _is_field(l, "run_length") and r == C(1), "run_length + 1 (compound form)"),
+]
+
+
+def _is_field(t, name):
+    t = unmut(t) if t is not None else t
+    return isinstance(t, tuple) and len(t) == 3 and t[0] == "f" and t[2] == name
+
+
 def allowed(fnpath, opname, l, r):
+    for (op, pred, why) in SHAPE_ALLOW:
+        try:
+            if op == opname and pred(unmut(l), unmut(r) if r is not None else None):
+                return why
+        except Exception:
+            pass
     for (fn, op, needle, why) in ALLOW:
         if fn == fnpath and op == opname:
             if not needle or needle in tstr(l) or (r is not None and needle in tstr(r)):
@@ -298,9 +325,12 @@ def r_taint_arith(ctx, extra=None, rule="R-TAINT-ARITH", only_fns=None):
     obs = []
     tn = _taint(ctx, extra)
     per_node = {}
+    called = set(c for cs in ctx.callgraph().values() for c in cs)
     for f in ctx.user_fns():
         if only_fns is not None and f["path"] not in only_fns:
             continue
+        if f["path"] in ctx.inlinable and f["path"] in called:
+            continue   # a private effect-free helper: analysed in place inside each of its callers
         try:
             fa = ctx.fa(f)
         except PathExplosion:
@@ -317,7 +347,9 @@ def r_taint_arith(ctx, extra=None, rule="R-TAINT-ARITH", only_fns=None):
                 tl, tr = tn.tainted(fa, l), (tn.tainted(fa, r) if r is not None else False)
                 if not (tl or tr):
                     continue
-                key = (f["path"], e.node.get("id"))
+                # events of a helper that was evaluated in place are judged in the caller's context (operands are the caller's terms)
+                owner = f["path"]
+                key = (owner, e.node.get("id"))
                 op = e.d["op"] + ("=" if e.d.get("compound") else "")
                 verdict, why = None, ""
                 if e.d["flavour"] != "plain":
@@ -330,19 +362,19 @@ def r_taint_arith(ctx, extra=None, rule="R-TAINT-ARITH", only_fns=None):
                         if b is not None and b <= W:
                             verdict, why = True, "width: result needs at most %d of %d bits" % (b, W)
                         if verdict is None and e.d["op"] == "+":
-                            kl, kr = guard_le_const(p, e.seq, l), (r[1] if r[0] == "c" else guard_le_const(p, e.seq, r))
+                            kl, kr = guard_le_const(p, e.seq, l, e), (r[1] if r[0] == "c" else guard_le_const(p, e.seq, r, e))
                             if kl is not None and kr is not None and kl + kr < (1 << W):
                                 verdict, why = True, "guarded: operands bounded by %d and %d" % (kl, kr)
-                    if verdict is None and e.d["op"] == "-" and not signed and guard_ge(p, e.seq, l, r):
+                    if verdict is None and e.d["op"] == "-" and not signed and guard_ge(p, e.seq, l, r, e):
                         verdict, why = True, "guarded: a decision on this path implies left ≥ right"
                     if verdict is None and e.d["op"] in ("<<", ">>"):
-                        k = guard_le_const(p, e.seq, r) if r[0] != "c" else r[1]
+                        k = guard_le_const(p, e.seq, _strip_cast(unmut(r)), e) if r[0] != "c" else r[1]
                         if k is not None and k < W:
                             verdict, why = True, "guarded: shift amount ≤ %d < %d" % (k, W)
                     if verdict is None and e.d["op"] in ("/", "%") and r is not None and r[0] == "c" and r[1] != 0:
                         verdict, why = True, "division by a non-zero constant"
                     if verdict is None:
-                        a = allowed(f["path"], op, l, r) or allowed(f["path"], e.d["op"], l, r)
+                        a = allowed(owner, op, l, r) or allowed(owner, e.d["op"], l, r)
                         if a:
                             verdict, why = True, "allow-table: " + a
                     if verdict is None:
@@ -350,7 +382,7 @@ def r_taint_arith(ctx, extra=None, rule="R-TAINT-ARITH", only_fns=None):
                         why = "unchecked `%s` on input-derived operands (%s) with no guard on this path" % (op, ", ".join(tn.why(fa, l) + (tn.why(fa, r) if r is not None else [])))
                 cur = per_node.get(key)
                 if cur is None or (cur[0] and not verdict):
-                    per_node[key] = (verdict, why, e, f["path"], op, l, r)
+                    per_node[key] = (verdict, why, e, owner, op, l, r)
     for key, (verdict, why, e, fnp, op, l, r) in sorted(per_node.items(), key=lambda kv: (kv[1][3], kv[1][2].loc())):
         site = "%s %s %s" % (_shape(l), op, _shape(r))
         obs.append(Ob(rule, fnp, site, verdict, why, e.loc(), {"left": tstr(l)[:80], "right": tstr(r)[:80] if r is not None else None}))
@@ -542,10 +574,15 @@ def r_rec_bound(ctx):
 
 
 def _is_limit(d, pa):
-    if d.d["how"] != "if" or d.d["outcome"] is not True:
-        return False
-    c = unmut(d.d["cond"])
-    return c[0] == "bin" and c[1] in (">", ">=") and c[2] == pa and affine(c[3])[1] == {}
+    """the decision establishes `pa` > constant (in either operand order)"""
+    for f in decision_facts(d):
+        if f[0] == "rel":
+            op, l, r = f[1], f[2], f[3]
+            if op in (">", ">=") and l == pa and affine(r)[1] == {}:
+                return True
+            if op in ("<", "<=") and r == pa and affine(l)[1] == {}:
+                return True
+    return False
 
 
 # ------------------------------------------------------------------------------------------------
@@ -618,7 +655,7 @@ def r_leaf_skip_and_filter(ctx):
                 if e.kind == "call" and e.d["fn"].endswith("HashMap::<K, V, S, A>::insert") and len(e.d["args"]) == 3:
                     n_ins += 1
                     key = unmut(e.d["args"][1])
-                    ok = False
+                    ok = _filtered_by(key, fr)
                     for d in p.decisions(e.seq):
                         for c, pol in _atoms_with_polarity(unmut(d.d["cond"]), d.d["outcome"] is True):
                             if is_call_to(c, lambda s: s.endswith("RangeBounds::contains") or s.endswith("::contains")) and c[2][0] == fr and c[2][1] == key and pol:
@@ -849,8 +886,37 @@ def r_findz(ctx):
                             guarded_assign[e.d["var"]] = True
                         else:
                             unguarded.append(e)
-        obs.append(Ob("R-FINDZ", fn, "zoom is recorded only under `id < end of that zoom's block` (strict)", bool(guarded_assign) and not unguarded,
-                      "guarded zoom assignments: %d, unguarded: %d" % (len(guarded_assign), len(unguarded)), unguarded[0].loc() if unguarded else rel(f["loc"])))
+        # … or the zoom is returned directly from inside the loop: the same strict test must precede that exit
+        direct_ok = direct_bad = 0
+        for p in fa.paths:
+            if p.exit != "ok":
+                continue
+            v = unmut(p.value)
+            z = v[2][0] if is_call_to(v, lambda s: s == "core::result::Result::Ok") and v[2] else None
+            zz = z
+            while isinstance(zz, tuple) and zz and zz[0] == "cast":
+                zz = zz[2]
+            if isinstance(zz, tuple) and zz and zz[0] == "elem":
+                ex = [e for e in p.events if e.kind == "exit"][-1]
+                loops_of_exit = None
+                for e in reversed(p.events):
+                    if e.kind == "decide" and e.loops:
+                        loops_of_exit = e.loops
+                        break
+                class _E:  # the exit happens inside the iteration whose decisions we look at
+                    pass
+                fake = _E()
+                fake.d = {"value": z}
+                fake.seq = ex.seq
+                fake.loops = loops_of_exit or ()
+                if not any(a.kind == "assign" and unmut(a.d["value"]) == z for a in p.events) :
+                    if _strict_block_test(fa, p, fake, tid):
+                        direct_ok += 1
+                    else:
+                        direct_bad += 1
+        obs.append(Ob("R-FINDZ", fn, "zoom is recorded only under `id < end of that zoom's block` (strict)", (bool(guarded_assign) or direct_ok > 0) and not unguarded and direct_bad == 0,
+                      "guarded zoom assignments: %d, unguarded: %d; guarded direct returns: %d, unguarded: %d" % (len(guarded_assign), len(unguarded), direct_ok, direct_bad),
+                      unguarded[0].loc() if unguarded else rel(f["loc"])))
         ok_range = len(ranges) == 1 and list(ranges)[0][0] == "struct" and struct_field(list(ranges)[0], "start") == C(1) and struct_field(list(ranges)[0], "end") == C(maxz + 1)
         obs.append(Ob("R-FINDZ", fn, "searches zooms 1..=31", ok_range, "loop ranges: %s" % [tstr(r) for r in ranges], rel(f["loc"])))
         oks = [p for p in fa.paths if p.exit == "ok"]
@@ -977,3 +1043,18 @@ def _is_pow4_sum(t, z):
         return False
     body = clos[2][0]
     return is_call_to(body, lambda s: s.endswith("::pow")) and body[2][0] == C(4) and _strip_cast(body[2][1])[0] == "v"
+
+
+def _filtered_by(key, fr):
+    """key is an element of `iter.filter(|id| filter_range.contains(id))`"""
+    if not (isinstance(key, tuple) and key[0] == "elem"):
+        return False
+    it = key[1]
+    while is_call_to(it, lambda s: s.endswith(("::filter", "::enumerate", "::rev", "::into_iter", "::iter"))):
+        if it[1].endswith("::filter") and len(it[2]) == 2 and it[2][1][0] == "clos" and it[2][1][2]:
+            body = it[2][1][2][0]
+            for c in _conjuncts(body):
+                if is_call_to(c, lambda s: s.endswith("::contains")) and c[2][0] == fr and c[2][1][0] == "v" and c[2][1][1].startswith("clos"):
+                    return True
+        it = it[2][0]
+    return False
